@@ -466,6 +466,17 @@ Definition sp_offer_lazy (c : cfg) (st : astate) (nx : N) (v : nat) (idx : optio
        | _, _ => None
        end.
 
+(** push / insert of a REMOVAL HANDLE of another vector (v.push(other.remove(i)) ...): exactly what the same
+    handle moved by the sink does ([sp_take] with [KPush] / [KIns]) - the element leaves [src] and arrives in
+    [v], or is destroyed once if [v] refuses it; popping an empty source panics (the caller's unwrap) *)
+Definition sp_offer_temp (c : cfg) (st : astate) (nx : N) (v : nat) (idx : option N) (src : nat) (k : tkind) (sidx : N)
+  : option sres :=
+  match sp_take c st nx src k (match k with TPop => 0 | _ => sidx end)
+                (match idx with None => KPush v | Some i => KIns v i end) with
+  | Some r0 => Some (if s_out r0 =? 1 then panic_res PIndex [] st nx else r0)
+  | None => None
+  end.
+
 (** the fragment: by-value or boxed replacement values, all of the right type, honest size hint *)
 Lemma sp_splice_inv c st nx v sb eb pat f rk n wrong_at claimed r :
   sp_splice c st nx v sb eb pat f rk n wrong_at claimed = Some r ->
@@ -496,6 +507,7 @@ Definition spec_step (c : cfg) (st : astate) (nx : N) (o : op) : option sres :=
       else match a, s with
            | Erased, SWrong k | Erased, SBoxWrong k => sp_offer_wrong c st nx v k
            | _, SLazy _ src sidx => sp_offer_lazy c st nx v None src sidx
+           | Erased, STemp src k sidx => sp_offer_temp c st nx v None src k sidx
            | _, _ => None
            end
   | OInsert a v idx s =>
@@ -505,6 +517,7 @@ Definition spec_step (c : cfg) (st : astate) (nx : N) (o : op) : option sres :=
                (* the type is checked before the index *)
                sp_offer_wrong c st nx v k
            | _, SLazy _ src sidx => sp_offer_lazy c st nx v (Some idx) src sidx
+           | Erased, STemp src k sidx => sp_offer_temp c st nx v (Some idx) src k sidx
            | _, _ => None
            end
   | OWrite _ v idx => sp_write c st nx v idx
